@@ -34,6 +34,9 @@ const ENDPOINTS: [(usize, u64); 5] = [A_TO_B, B_FROM_A, B_FROM_ATT, A_FROM_ATT, 
 pub enum Op {
     /// open a connection: 0 = honest A<->B, 1 = attacker->B, 2 = attacker->A, 3 = second attacker->B
     Connect(u8),
+    /// the connection-established event arrives once more for a connection index that is still open
+    /// (a second socket for that index comes up before any disconnect was processed)
+    ConnectAgain(u8),
     /// deliver / drop the oldest undelivered honest message in direction 0 = A->B, 1 = B->A
     Deliver(u8),
     Drop(u8),
@@ -165,6 +168,7 @@ pub fn run_case(case: &Case) -> (Vec<(String, String)>, Info) {
         let ev_before: Vec<usize> = nodes.iter().map(|n| n.io.st.events.lock().unwrap().len()).collect();
         // (target node, peer idx, message bytes) delivered in this step, if any
         let mut delivered: Option<(usize, u64, Vec<u8>)> = None;
+        let mut reconnected: Vec<(usize, u64)> = vec![];
         let mut opname = "";
         match *op {
             Op::Connect(c) => {
@@ -182,6 +186,30 @@ pub fn run_case(case: &Case) -> (Vec<(String, String)>, Info) {
                             v.push((format!("C17|panic|site={site}"), format!("step {step}: connection handler panicked at {site}: {msg}")));
                         }
                     }
+                }
+            }
+            Op::ConnectAgain(c) => {
+                opname = "connect_again";
+                let eps: Vec<(usize, u64)> = match c % 4 {
+                    0 => vec![A_TO_B, B_FROM_A],
+                    1 => vec![B_FROM_ATT],
+                    2 => vec![A_FROM_ATT],
+                    _ => vec![B_FROM_ATT2],
+                };
+                for (ni, idx) in eps {
+                    if opened.contains(&(ni, idx)) {
+                        // whatever was issued on the previous connection is void for the new one
+                        issued.remove(&(ni, idx));
+                        let o = nodes[ni].net_event(NetworkEvent::PeerConnectionResult { result: Ok((idx, None)) });
+                        if let HandlerOutcome::Panicked(site, msg) = o {
+                            v.push((format!("C17|panic|site={site}|op=connect_again"), format!("step {step}: connection handler panicked at {site}: {msg}")));
+                        }
+                        reconnected.push((ni, idx));
+                    }
+                }
+                if c % 4 == 0 {
+                    wire[0].clear();
+                    wire[1].clear();
                 }
             }
             Op::Deliver(d) => {
@@ -318,6 +346,17 @@ pub fn run_case(case: &Case) -> (Vec<(String, String)>, Info) {
         collect!();
         // ---- monitor ----
         let after: Vec<_> = nodes.iter().map(view).collect();
+        // nothing has been signed on a connection that has just come up: it cannot be Connected
+        for (ni, idx) in &reconnected {
+            if let Some(pv) = after[*ni].0.get(idx) {
+                if pv.status == 2 {
+                    v.push((
+                        "C17|new_connection_inherits_authentication".into(),
+                        format!("step {step} ({opname}): node {ni} treats the connection that has just come up under index {idx} as connected under a key although no challenge was answered on it"),
+                    ));
+                }
+            }
+        }
         for ni in 0..2 {
             // handshake-complete events of this step
             let evs: Vec<u64> = nodes[ni].io.st.events.lock().unwrap()[ev_before[ni]..]
@@ -462,6 +501,7 @@ fn eval(c: &mut Ctx, case: &Case, counting: bool) -> Vec<(String, String)> {
 pub fn arb_op() -> impl Strategy<Value = Op> {
     prop_oneof![
         3 => (0u8..4).prop_map(Op::Connect),
+        1 => (0u8..4).prop_map(Op::ConnectAgain),
         6 => (0u8..2).prop_map(Op::Deliver),
         1 => (0u8..2).prop_map(Op::Drop),
         1 => (0u8..2).prop_map(Op::Reorder),
@@ -474,7 +514,7 @@ pub fn arb_op() -> impl Strategy<Value = Op> {
 }
 
 pub fn run(ctx: &mut Ctx) {
-    ctx.rule = "two honest nodes built from the real routing threads (A connects to B) and an attacker with three connections of its own (two to B, one to A) who also sits on the honest link; generated sequences of 4..14 operations: connect, deliver in order, drop, reorder, replay any observed message to any endpoint (incl. redirect across connections and reflection), attacker responses signed with its own key over the right / another connection's / a random challenge with ok / unset / incompatible core version (other major, other minor, a minor/patch pair that collides under byte packing, extreme patch levels) claiming its own or the honest peer's key, attacker challenges (random, or another endpoint's challenge: signing-oracle attempt), unsolicited traffic, dropped connections that are dialled again under the same connection index (plus two directed families: the honest link drops at every point of the handshake, is re-dialled, and every message seen so far is replayed to either end; the attacker reflects a node's own first messages back to it on the attacker's connection; the attacker relays a challenge so that its connection is authenticated under the honest peer's key and merged with that peer's half-open re-dial, then delivers the answer to the old connection's counter-challenge on it). monitor (from the honest nodes' outgoing messages the harness knows which challenge each node issued on which connection): every handshake completion (interface event or status change to Connected under key K) must coincide with the delivery, on that connection, of a response whose signature verifies for K over a challenge issued by this node on this connection that was not accepted before, the response must state a core version of the node's own major.minor line, and K must not be the node's own key (a reflected signature was not produced by the remote side); a delivery that completes nothing leaves status, key and key->connection entry of every other authenticated connection unchanged. evaluations = operations. non-trivial = sequence with a completed handshake side and a delivery that completed nothing; distinct by case digest".into();
+    ctx.rule = "two honest nodes built from the real routing threads (A connects to B) and an attacker with three connections of its own (two to B, one to A) who also sits on the honest link; generated sequences of 4..14 operations: connect, deliver in order, drop, reorder, replay any observed message to any endpoint (incl. redirect across connections and reflection), attacker responses signed with its own key over the right / another connection's / a random challenge with ok / unset / incompatible core version (other major, other minor, a minor/patch pair that collides under byte packing, extreme patch levels) claiming its own or the honest peer's key, attacker challenges (random, or another endpoint's challenge: signing-oracle attempt), unsolicited traffic, dropped connections that are dialled again under the same connection index, connection-established events that arrive a second time for an index that is still open (plus two directed families: the honest link drops at every point of the handshake, is re-dialled, and every message seen so far is replayed to either end; the attacker reflects a node's own first messages back to it on the attacker's connection; the attacker relays a challenge so that its connection is authenticated under the honest peer's key and merged with that peer's half-open re-dial, then delivers the answer to the old connection's counter-challenge on it). monitor (from the honest nodes' outgoing messages the harness knows which challenge each node issued on which connection): every handshake completion (interface event or status change to Connected under key K) must coincide with the delivery, on that connection, of a response whose signature verifies for K over a challenge issued by this node on this connection that was not accepted before, the response must state a core version of the node's own major.minor line, and K must not be the node's own key (a reflected signature was not produced by the remote side); a connection that has just come up is not Connected; a delivery that completes nothing leaves status, key and key->connection entry of every other authenticated connection unchanged. evaluations = operations. non-trivial = sequence with a completed handshake side and a delivery that completed nothing; distinct by case digest".into();
     ctx.assumptions.push("The attacker cannot forge signatures. A live relay of the very challenge (K signs, in its own handshake, the challenge the victim issued to the attacker) satisfies the statement's letter and is counted, not flagged.".into());
     // directed prefix: the honest handshake, in order, must complete on both sides
     let honest = Case { ops: vec![Op::Connect(0), Op::Deliver(1), Op::Deliver(0), Op::Deliver(1)] };
